@@ -10,7 +10,8 @@ Definition un_spec (x : sx) : spec :=
   {| sp_key := un_str (nth_sx 0 x); sp_name := un_str (nth_sx 1 x);
      sp_deps := map (un_opt un_str) (un_list (nth_sx 2 x)) |}.
 Definition un_run (x : sx) : run_in :=
-  {| r_specs := map un_spec (un_list (nth_sx 0 x)); r_default := un_opt un_str (nth_sx 1 x) |}.
+  {| r_specs := map un_spec (un_list (nth_sx 0 x)); r_explicit := map un_str (un_list (nth_sx 1 x));
+     r_fallback := map un_str (un_list (nth_sx 2 x)) |}.
 
 Definition sx_umap (m : umap) : sx := sx_list (fun kv => L [sx_str (fst kv); A (snd kv)]) m.
 Definition sx_ufile (f : ufile) : sx := sx_opt (fun vm => L [A (fst vm); sx_umap (snd vm)]) f.
